@@ -143,6 +143,27 @@ Section RefsRoundtrip.
       + unfold same_node. cbn [with_ns nid_ns nid_type nid_value with_nid_ns]. repeat split; try lia. rewrite Nat2Z.id, Hj, Huri. reflexivity.
   Qed.
 
+  (* a namespace index of the graph, as the writer prints it, is read by the parser as the index of the same URI *)
+  Lemma index_resolution i c : (0 <= i < Z.of_nat (length (p_namespaces p)))%Z -> w_compact in_use (w_remap (p_namespaces p) k i) = Some c ->
+    exists j, zlookup c nsmap = Some (Z.of_nat j) /\ nth_error ns1 j = Some (nth (Z.to_nat i) (p_namespaces p) []) /\ (0 <= c)%Z.
+  Proof.
+    intros Hi0 Hcmp. destruct Hreg as [Hnd [Hkk [Hi [H0 Hne]]]].
+    destruct (write_doc_parts p w d k refs Hk Hrefs Hw) as [Hu [_ [_ Hlen]]]. fold in_use in Hu, Hlen.
+    set (newl2 := map (fun i : Z => nth (Z.to_nat i) (w_newl (p_namespaces p) k) []) in_use) in *.
+    assert (Huri : nth (Z.to_nat c) newl2 [] = nth (Z.to_nat i) (p_namespaces p) []).
+    { unfold newl2. rewrite (compact_uri _ _ _ _ Hcmp). replace i with (Z.of_nat (Z.to_nat i)) at 1 by lia. apply remap_uri; lia. }
+    unfold w_compact in Hcmp. destruct (zindex (w_remap (p_namespaces p) k i) in_use) as [c0|] eqn:Ec; [|discriminate].
+    cbn [omap] in Hcmp. injection Hcmp as <-. rewrite Nat2Z.id in Huri.
+    destruct (zindex_nth _ _ _ Ec) as [_ Hclt]. assert (Hclt2 : c0 < length newl2) by (unfold newl2; now rewrite map_length).
+    pose proof (parse_file_ns E ns d ns1 fo Hp) as Ens1.
+    destruct c0 as [|c'].
+    - exists 0. split; [apply zlookup_zero|]. split; [|lia]. rewrite Hzero. f_equal. rewrite <- Huri.
+      destruct in_use_head as [rest Eu]. unfold newl2. rewrite Eu. reflexivity.
+    - assert (Hnth : nth_error (tl newl2) c' = Some (nth (S c') newl2 [])).
+      { destruct newl2 as [|u0 l2]; [cbn in Hclt2; lia|]. cbn [tl nth]. apply nth_error_nth'. cbn in Hclt2. lia. }
+      destruct (C03_identifier_index ns d (tl newl2) c' _ [] Hu Hnth) as [j [Hz Hj]]. rewrite app_nil_r, <- Ens1 in Hj.
+      exists j. split; [exact Hz|]. split; [|lia]. rewrite Hj, Huri. reflexivity.
+  Qed.
   Hypothesis Hclosed : forall t, In t refs -> touches t = true -> is_node (fst (fst t)) /\ is_node (snd (fst t)) /\ is_node (snd t).
   Lemma text_used n : is_node n -> In n (w_used p k refs) ->
     exists n', parse_nodeid (w_text_of p k in_use n) nsmap [] = Ok n' /\ parse_nodeid (rstrip (w_text_of p k in_use n)) nsmap [] = Ok n' /\ same_node n n'.
